@@ -5,7 +5,9 @@
      ops    = 1 mode n end : spawn a future: it returns Pending n times, then
                               Ready (end 0) / panics (end 1); end 2 = never ends.
                               mode 0: each Pending poll stores a clone of its waker
-                              (for `wake`), mode 1: each Pending poll wakes itself.
+                              (for `wake`), mode 1: each Pending poll wakes itself,
+                              mode 2: every poll wakes itself, the last one (Ready /
+                              panic) included.
               2 i          : wake task i through its stored waker (wake_by_ref)
               3 i          : drop the stored waker of task i
               4            : tick
@@ -104,9 +106,13 @@ Definition run_task (w : world) (c : nat) : world * list qop * bool :=
                           if N.eqb (bmode b) 0 then [] else [QHot c], false)
             end
           else
-            match do_labels [EPollEnd (if N.eqb (bend b) 1 then OPanic else OReady)] s2 with
+            (* mode 2: the final poll wakes itself too, just before it returns / panics *)
+            let selfw := N.eqb (bmode b) 2 in
+            match do_labels ((if selfw then [LWake] else [])
+                             ++ [EPollEnd (if N.eqb (bend b) 1 then OPanic else OReady)]) s2 with
             | None => stuck
-            | Some s3 => ((upd_task l c (mktk s3 b (tadj t)), e, pl ++ [c]), [], true)
+            | Some s3 => ((upd_task l c (mktk s3 b (tadj t)), e, pl ++ [c]),
+                          if selfw then [QHot c] else [], true)
             end
         end
       | _ =>   (* cancelled: Task::run returns Ready at once, tick drops the task *)
